@@ -19,6 +19,7 @@ type Profile struct {
 	Newline                                                                            int // percent of terminals that are a newline
 	SharedPrefix                                                                       int // percent of choices whose alternatives share a prefix
 	MaxRune                                                                            bool
+	MemoSplice                                                                         int  // percent of grammars with a re-enter-after-overwrite choice (memo splice)
 	RefHeavy                                                                           bool // rule bodies are sequences of references and captures
 	Dispatch                                                                           int  // percent of choices built as first-character dispatch (what -switch rewrites)
 }
@@ -26,7 +27,7 @@ type Profile struct {
 var Profiles = map[string]Profile{
 	"plain":      {Name: "plain", MinRules: 2, MaxRules: 6, Depth: 3, AltMin: 2, AltMax: 4, SeqMax: 4, WTerm: 22, WSeq: 20, WAlt: 18, WOpt: 6, WStar: 6, WPlus: 6, WAnd: 4, WNot: 4, WCap: 6, WRef: 8, WAct: 6, WPred: 2, WState: 1, Hostile: 8, Newline: 2},
 	"switchy":    {Name: "switchy", Dispatch: 60, MinRules: 2, MaxRules: 6, Depth: 3, AltMin: 3, AltMax: 6, SeqMax: 3, WTerm: 22, WSeq: 16, WAlt: 30, WOpt: 6, WStar: 5, WPlus: 4, WAnd: 5, WNot: 5, WCap: 4, WRef: 10, WAct: 4, WPred: 1, WState: 0, Hostile: 6, Newline: 1},
-	"backtracky": {Name: "backtracky", MinRules: 2, MaxRules: 5, Depth: 3, AltMin: 2, AltMax: 4, SeqMax: 4, WTerm: 18, WSeq: 22, WAlt: 22, WOpt: 5, WStar: 5, WPlus: 4, WAnd: 6, WNot: 4, WCap: 10, WRef: 12, WAct: 10, WPred: 1, WState: 0, Hostile: 3, Newline: 1, SharedPrefix: 60},
+	"backtracky": {Name: "backtracky", MemoSplice: 50, MinRules: 2, MaxRules: 5, Depth: 3, AltMin: 2, AltMax: 4, SeqMax: 4, WTerm: 18, WSeq: 22, WAlt: 22, WOpt: 5, WStar: 5, WPlus: 4, WAnd: 6, WNot: 4, WCap: 10, WRef: 12, WAct: 10, WPred: 1, WState: 0, Hostile: 3, Newline: 1, SharedPrefix: 60},
 	"deep":       {Name: "deep", MinRules: 3, MaxRules: 7, Depth: 4, AltMin: 2, AltMax: 3, SeqMax: 3, WTerm: 14, WSeq: 22, WAlt: 12, WOpt: 6, WStar: 6, WPlus: 6, WAnd: 2, WNot: 2, WCap: 14, WRef: 18, WAct: 8, WPred: 1, WState: 0, Hostile: 10, Newline: 2},
 	"erry":       {Name: "erry", RefHeavy: true, MinRules: 4, MaxRules: 7, Depth: 3, AltMin: 2, AltMax: 3, SeqMax: 5, WTerm: 14, WSeq: 30, WAlt: 10, WOpt: 6, WStar: 5, WPlus: 6, WAnd: 2, WNot: 2, WCap: 14, WRef: 30, WAct: 2, WPred: 1, WState: 0, Hostile: 15, Newline: 20},
 	"actiony":    {Name: "actiony", MinRules: 2, MaxRules: 5, Depth: 3, AltMin: 2, AltMax: 3, SeqMax: 5, WTerm: 14, WSeq: 26, WAlt: 14, WOpt: 8, WStar: 8, WPlus: 8, WAnd: 5, WNot: 3, WCap: 16, WRef: 12, WAct: 24, WPred: 1, WState: 0, Hostile: 4, Newline: 2, SharedPrefix: 40},
@@ -99,7 +100,14 @@ func (s *genState) term() *Expr {
 		n := rapid.IntRange(1, 3).Draw(t, "nitems")
 		e := &Expr{K: KClass}
 		for i := 0; i < n; i++ {
-			if s.pct(25, "range") {
+			if s.p.MaxRune && s.pct(6, "edgerange") {
+				// ranges that touch the ends of the code space
+				if rapid.Bool().Draw(t, "edgehi") {
+					e.Items = append(e.Items, Item{0x10FFFF - rune(rapid.IntRange(0, 3).Draw(t, "ew")), 0x10FFFF})
+				} else {
+					e.Items = append(e.Items, Item{0, rune(rapid.IntRange(0, 3).Draw(t, "ew0"))})
+				}
+			} else if s.pct(25, "range") {
 				lo := rapid.SampledFrom([]rune{'a', 'b', 'c', 'A', '0'}).Draw(t, "clo")
 				e.Items = append(e.Items, Item{lo, lo + rune(rapid.IntRange(1, 3).Draw(t, "cw"))})
 			} else {
@@ -245,6 +253,16 @@ func (s *genState) expr(i, depth int, must, guarded bool) *Expr {
 			return e
 		}
 		for j := 0; j < n; j++ {
+			if !must && j < n-1 && s.pct(12, "barelook") {
+				// a bare lookahead as a non-final alternative: it fails after having read
+				// input, and the next alternative must start from the saved position
+				k := KNot
+				if s.pct(40, "barelookand") {
+					k = KAnd
+				}
+				e.Kids = append(e.Kids, Un(k, s.expr(i, depth-1, true, guarded)))
+				continue
+			}
 			e.Kids = append(e.Kids, s.expr(i, depth-1, must, guarded))
 		}
 		if !must && s.pct(20, "emptylast") {
@@ -299,8 +317,12 @@ func (s *genState) dispatch(i, depth int, must, guarded bool) *Expr {
 	n := rapid.IntRange(3, 6).Draw(t, "dn")
 	perm := rapid.Permutation(leads).Draw(t, "leads")
 	e := &Expr{K: KAlt}
+	// elements that precede a leading character mostly use an alphabet of their own, so that
+	// the (possibly wrong) first-character sets of the alternatives stay disjoint and the
+	// choice really becomes a switch
+	pre := []rune{'w', 'x', 'y', 'z', 'w', 'x', 'y', 'z', 'a', '0'}
 	small := func(label string) *Expr {
-		r := rapid.SampledFrom(leads).Draw(t, label)
+		r := rapid.SampledFrom(pre).Draw(t, label)
 		switch rapid.IntRange(0, 3).Draw(t, label+"k") {
 		case 0:
 			return &Expr{K: KClass, Items: []Item{{r, r + 1}}}
@@ -312,7 +334,7 @@ func (s *genState) dispatch(i, depth int, must, guarded bool) *Expr {
 	for j := 0; j < n; j++ {
 		lead := &Expr{K: KLit, Runes: []rune{perm[j]}}
 		alt := &Expr{K: KSeq}
-		switch k := rapid.IntRange(0, 19).Draw(t, "dprefix"); {
+		switch k := rapid.IntRange(0, 17).Draw(t, "dprefix"); {
 		case k == 0:
 			alt.Kids = append(alt.Kids, Un(KAnd, small("pa")))
 		case k == 1:
@@ -321,6 +343,22 @@ func (s *genState) dispatch(i, depth int, must, guarded bool) *Expr {
 			alt.Kids = append(alt.Kids, Un(KOpt, small("po")))
 		case k == 3:
 			alt.Kids = append(alt.Kids, Un(KStar, small("ps")))
+		case k == 11:
+			// a nullable choice in front of the leading character: ('x' / 'y' /) 'a'
+			alt.Kids = append(alt.Kids, &Expr{K: KAlt, Kids: []*Expr{small("nn1"), small("nn2")}, EmptyLast: true})
+		case k == 12 && (guarded || i+1 < s.n):
+			// a reference to a rule that may match empty, in front of the leading character
+			var jr int
+			if guarded {
+				jr = rapid.IntRange(0, s.n-1).Draw(t, "dnrefg")
+			} else {
+				jr = rapid.IntRange(i+1, s.n-1).Draw(t, "dnrefu")
+			}
+			if s.known[jr] && !s.ruleMust[jr] {
+				alt.Kids = append(alt.Kids, Ref(jr))
+			}
+		case k == 13:
+			alt.Kids = append(alt.Kids, Un(KOpt, &Expr{K: KAlt, Kids: []*Expr{small("no1"), small("no2")}}))
 		case k == 4:
 			lead = &Expr{K: KAlt, Kids: []*Expr{small("n1"), small("n2")}}
 		case k == 5:
@@ -401,6 +439,62 @@ func (s *genState) refHeavy(i int) *Expr {
 	return e
 }
 
+// memoSplice prepends to the first rule a choice  A t1 / E t2 / A t3 / (old body)  where A
+// and E are new rules matching the same text with different token structure: A succeeds,
+// the parser backtracks, E overwrites (some of) A's token slots and fails on its tail, and
+// A is re-entered at the same offset and token index - the case in which a memoised success
+// has to restore position and tokens exactly.
+func (s *genState) memoSplice(g *Grammar) {
+	t := s.t
+	x := rapid.SampledFrom(baseAlpha).Draw(t, "msx")
+	lx := func() *Expr { return &Expr{K: KLit, Runes: []rune{x}} }
+	base := len(g.Rules)
+	c, a, e := base, base+1, base+2
+	var abody, ebody *Expr
+	switch rapid.IntRange(0, 3).Draw(t, "msa") {
+	case 0:
+		abody = Seq(Ref(c), Un(KStar, Ref(c)))
+	case 1:
+		abody = Seq(Un(KCap, lx()), Un(KStar, Un(KCap, lx())))
+	case 2:
+		abody = Seq(Ref(c), Ref(c), Un(KOpt, Ref(c)))
+	default:
+		abody = Seq(Un(KCap, Ref(c)), &Expr{K: KAct}, Un(KStar, Ref(c)))
+	}
+	switch rapid.IntRange(0, 3).Draw(t, "mse") {
+	case 0:
+		ebody = Seq(Un(KPlus, lx()), &Expr{K: KAct})
+	case 1:
+		ebody = Un(KPlus, lx())
+	case 2:
+		ebody = Seq(Un(KCap, Un(KPlus, lx())))
+	default:
+		ebody = Seq(Ref(c), Un(KStar, lx()))
+	}
+	tails := rapid.Permutation([]rune{'1', '2', '3', 'b', 'c', 'd'}).Draw(t, "mstails")
+	var tl []rune
+	for _, r := range tails {
+		if r != x && len(tl) < 3 {
+			tl = append(tl, r)
+		}
+	}
+	tail := func(r rune) *Expr { return &Expr{K: KLit, Runes: []rune{r}} }
+	g.Rules = append(g.Rules,
+		&Rule{Name: fmt.Sprintf("R%d", c), Body: lx()},
+		&Rule{Name: fmt.Sprintf("R%d", a), Body: abody},
+		&Rule{Name: fmt.Sprintf("R%d", e), Body: ebody})
+	g.Rules[0].Body = &Expr{K: KAlt, Kids: []*Expr{
+		Seq(Ref(a), tail(tl[0])),
+		Seq(Ref(e), tail(tl[1])),
+		Seq(Ref(a), tail(tl[2])),
+		g.Rules[0].Body,
+	}}
+	s.n = len(g.Rules)
+	s.ruleMust = append(s.ruleMust, true, true, true)
+	s.known = append(s.known, true, true, true)
+	s.rules = g.Rules
+}
+
 // WellFormedGrammar draws a well-formed grammar of the profile. Every rule is reachable
 // from the first one.
 func WellFormedGrammar(t *rapid.T, p Profile) *Grammar {
@@ -426,6 +520,9 @@ func WellFormedGrammar(t *rapid.T, p Profile) *Grammar {
 		s.known[i] = true
 	}
 	g := &Grammar{Package: "g", Struct: "G", Rules: s.rules}
+	if s.pct(p.MemoSplice, "memosplice") {
+		s.memoSplice(g)
+	}
 	// reachability: append references to unreachable rules to the first rule
 	reach := g.Reachable()
 	var tail []*Expr
@@ -506,8 +603,21 @@ func Sample(g *Grammar, entry int, c Chooser, maxLen int) []rune {
 		case KCap:
 			ev(e.Kids[0], d)
 		case KSeq:
-			for _, k := range e.Kids {
+			stop := len(e.Kids)
+			if d > 0 || len(out) > 0 {
+				// now and then abandon a sequence midway: the text then matches a prefix of
+				// it, and whatever encloses it has to restore the position
+				if c.Intn(7) == 0 {
+					stop = c.Intn(len(e.Kids) + 1)
+				}
+			}
+			for _, k := range e.Kids[:stop] {
 				ev(k, d)
+			}
+		case KAnd, KNot:
+			// usually contribute nothing; sometimes the text the operand would (partly) match
+			if c.Intn(3) == 0 {
+				ev(e.Kids[0], d+1)
 			}
 		case KAlt:
 			n := len(e.Kids)
